@@ -135,6 +135,10 @@ STATE_ASSUME = ["synthetic rounds satisfy RoundWellFormed (largest_ttl is 0 or w
 
 def c05(ctx):
     q = ctx.quick()
+    # growth (drift only): the report modes print the statistics this property is about - JSON / CSV / Markdown rows and
+    # the flows listing are parsed back from the captured standard output and validated against Report.tla
+    ctx.sim("report", 300 if q else 6000, "conf/ConfReport.tla", "ConfReport.cfg", package="vt", subcmd="report", batch=100 if q else 1000,
+            seed_off=7, drift_only=True)
     H = "mc/MC_HopStats.tla"
     ctx.model(H, "MC_HopStats_a.cfg", workers=12)
     ctx.model(H, "MC_HopStats_loss.cfg", workers=12)
